@@ -91,7 +91,13 @@ def gen_dop(rng, with_order2):
             r = gen_order2(rng, params, o["order1"], o["order1_arg"])
             o["order2_arg"], o2, o["auto"] = r
             if o2 == "PARAMS2":
-                o2 = {sp(*k): {} for k in o["d2arrs"]}
+                # order2=True requests every pair of PARAMETERS_ORDER2 (= the d2arrs keys); _parse_partials
+                # rightly refuses a pair none of whose members is an order1 variable: declare those explicitly
+                if all(set(k) & set(o["order1"]) for k in o["d2arrs"]) and o["d2arrs"]:
+                    o2 = {sp(*k): {} for k in o["d2arrs"]}
+                else:
+                    v = sorted(o["order1"])[0]
+                    o["order2_arg"], o2 = v, {(v, v): {}}
             o["order2"] = o2
     return o
 
